@@ -1,7 +1,10 @@
 /-
-  C19 — a value string accepted by `validate` and free of quoting leaves a
-  wildcard-free literal part between its leading and trailing wildcards
-  (`coreClean`, the side condition of the pattern theorem).
+  C19 — `patCompare` is the glob semantics of the matching specification for
+  every source value string that `validate` accepts and every target: the
+  shape `lead · body · trail` of an accepted value (CpeGrammar) is what the two
+  stripping steps of `patCompare` find, also when the body has quoted
+  characters (the trailing step looks at the unquoted tail only, and the
+  literal part and the target are compared unquoted).
 -/
 import ClairModel.Proofs.CpePattern
 import ClairModel.Proofs.CpeGrammar
@@ -9,8 +12,7 @@ import ClairModel.Proofs.CpeGrammar
 namespace ClairModel.Cpe
 open ClairModel.CpeTypes ClairModel.CpeSpec
 
-/-- No `*` and no `?`. -/
-def cleanL (x : Str) : Prop := ∀ c ∈ x, c ≠ 42 ∧ c ≠ 63
+/-! ### stripLead on `lead ++ B ++ trail` -/
 
 theorem dropWhile_q_replicate (k : Nat) (x : Str) :
     (List.replicate k 63 ++ x).dropWhile (· == 63) = x.dropWhile (· == 63) := by
@@ -31,12 +33,6 @@ theorem stripLead_nil : stripLead [] = (some 0, []) := by
   split
   · rename_i r heq; cases heq
   · rfl
-
-theorem replicate_append_replicate' (k m a : Nat) :
-    List.replicate k a ++ List.replicate m a = List.replicate (k + m) a := by
-  induction k with
-  | zero => simp
-  | succ k ih => rw [List.replicate_succ, List.cons_append, ih, Nat.succ_add, List.replicate_succ]
 
 theorem stripLead_qs_succ (k : Nat) (Y : Str) (hY : ∀ c t, Y = c :: t → c ≠ 63) :
     (stripLead (List.replicate (k + 1) 63 ++ Y)).2 = Y := by
@@ -63,17 +59,18 @@ theorem stripLead_qs (k : Nat) (Y : Str) (hY : ∀ c t, Y = c :: t → c ≠ 42 
       simp [this.2]
   | succ k => exact stripLead_qs_succ k Y (fun c t h => (hY c t h).2)
 
-/-- What is left after the leading wildcard of `lead ++ B ++ trail`. -/
-theorem stripLead_rem (l r : Option Nat) (B : Str) (hB : cleanL B) :
+/-- What is left after the leading wildcard of `lead ++ B ++ trail`, when `B`
+    does not begin with a special character. -/
+theorem stripLead_rem (l r : Option Nat) (B : Str) (hB : ∀ c t, B = c :: t → c ≠ 42 ∧ c ≠ 63) :
     (stripLead (leadStr l ++ B ++ leadStr r)).2 = B ++ leadStr r ∨
-      (r = none ∧ (stripLead (leadStr l ++ B ++ leadStr r)).2 = [42]) ∨
-      (stripLead (leadStr l ++ B ++ leadStr r)).2 = [] := by
+      (r = none ∧ B = [] ∧ (stripLead (leadStr l ++ B ++ leadStr r)).2 = [42]) ∨
+      (B = [] ∧ (stripLead (leadStr l ++ B ++ leadStr r)).2 = []) := by
   cases l with
   | none => left; simp [leadStr, stripLead]
   | some k =>
     cases B with
     | cons c B' =>
-      have hc := hB c (by simp)
+      have hc := hB c B' rfl
       left
       have hu : leadStr (some k) ++ (c :: B') ++ leadStr r = List.replicate k 63 ++ (c :: B' ++ leadStr r) := by
         simp [leadStr]
@@ -89,7 +86,7 @@ theorem stripLead_rem (l r : Option Nat) (B : Str) (hB : cleanL B) :
         | zero => right; right; simp [leadStr, stripLead]
         | succ k =>
           right; left
-          refine ⟨rfl, ?_⟩
+          refine ⟨rfl, rfl, ?_⟩
           have hu : leadStr (some (k + 1)) ++ [] ++ leadStr none = List.replicate (k + 1) 63 ++ [42] := by
             simp [leadStr]
           rw [hu]
@@ -99,73 +96,199 @@ theorem stripLead_rem (l r : Option Nat) (B : Str) (hB : cleanL B) :
           subst this; decide
       | some m =>
         right; right
+        refine ⟨rfl, ?_⟩
         have hu : leadStr (some k) ++ [] ++ leadStr (some m) = List.replicate (k + m) 63 ++ [] := by
           simp [leadStr, List.replicate_append_replicate]
         rw [hu]
         apply stripLead_qs
         intro c' t heq; cases heq
 
-theorem cleanL_reverse (B : Str) (h : cleanL B) : cleanL B.reverse := by
-  intro c hc; exact h c (by simpa using hc)
-
-theorem stripTrail_core_clean (B : Str) (r : Option Nat) (hB : cleanL B) :
-    cleanL (stripTrail (B ++ leadStr r)).2 := by
-  have hrev : (B ++ leadStr r).reverse = leadStr r ++ B.reverse ++ leadStr (some 0) := by
-    have h0 : leadStr (some 0) = [] := rfl
-    rw [h0, List.append_nil, List.reverse_append, leadStr_reverse]
-  simp only [stripTrail, hrev]
-  rcases stripLead_rem r (some 0) B.reverse (cleanL_reverse B hB) with h | ⟨h, _⟩ | h
-  · rw [h]
-    simp only [leadStr, List.replicate_zero, List.append_nil, List.reverse_reverse]
-    exact hB
-  · cases h
-  · rw [h]; intro c hc; simp at hc
-
-theorem core_clean_of_shape (l r : Option Nat) (B : Str) (hB : cleanL B) :
-    cleanL (stripTrail (stripLead (leadStr l ++ B ++ leadStr r)).2).2 := by
-  rcases stripLead_rem l r B hB with h | ⟨_, h⟩ | h
-  · rw [h]; exact stripTrail_core_clean B r hB
-  · rw [h]; intro c hc; simp [stripTrail, stripLead] at hc
-  · rw [h]; intro c hc; simp [stripTrail, stripLead_nil] at hc
-
-/-- A body without backslash consists of letters, digits and underscores. -/
-theorem body_noquote_clean (body : Str) (h92 : 92 ∉ body) (hb : bodyStr false body = true) :
-    ∀ c ∈ body, unreservedC c = true := by
-  induction body with
-  | nil => intro c hc; cases hc
-  | cons d rest ih =>
-    have hd : d ≠ 92 := fun e => h92 (by simp [e])
-    have hr : 92 ∉ rest := fun e => h92 (by simp [e])
-    simp only [bodyStr, Bool.false_eq_true, if_false, hd, Bool.and_eq_true] at hb
-    intro c hc
-    rcases List.mem_cons.1 hc with rfl | hc
-    · exact hb.1
-    · exact ih hr hb.2 c hc
-
 theorem lower_leadStr (w : Option Nat) : lower (leadStr w) = leadStr w := by
   cases w with
   | none => rfl
   | some n => simp [leadStr, lower, lowerC]
 
-theorem validate_coreClean (s : Str) (hv : validate s = true) (h92 : 92 ∉ s) : coreClean s := by
+/-! ### the body of a value: quoted pairs and unreserved characters -/
+
+theorem unquoteAux_eq_spec (e : Bool) (s : Str) : unquoteAux e s = CpeSpec.unquoteAux e s := by
+  induction s generalizing e with
+  | nil => rfl
+  | cons c rest ih =>
+    simp only [unquoteAux, CpeSpec.unquoteAux, ih]
+
+theorem unreserved_lowerC (c : Nat) : unreservedC (lowerC c) = unreservedC c := by
+  simp only [unreservedC, lowerC]
+  split
+  · rename_i h
+    rw [Bool.eq_iff_iff]
+    simp only [Bool.or_eq_true, Bool.and_eq_true, decide_eq_true_eq, beq_iff_eq]
+    omega
+  · rfl
+
+theorem bodyStr_lower (e : Bool) (b : Str) : bodyStr e (lower b) = bodyStr e b := by
+  induction b generalizing e with
+  | nil => rfl
+  | cons c rest ih =>
+    have ih' : ∀ e, bodyStr e (List.map lowerC rest) = bodyStr e rest := ih
+    simp only [lower, List.map_cons, bodyStr]
+    have h92 : lowerC c = 92 ↔ c = 92 := lowerC_eq_iff c 92 (by omega)
+    by_cases he : e = true
+    · simp [he, ih']
+    · by_cases hc : c = 92
+      · subst hc; simp [he, ih', lowerC]
+      · have : lowerC c ≠ 92 := fun h => hc (h92.1 h)
+        simp [he, hc, this, ih', unreserved_lowerC]
+
+theorem unreserved_not_special (c : Nat) (h : unreservedC c = true) : c ≠ 42 ∧ c ≠ 63 ∧ c ≠ 92 := by
+  simp only [unreservedC, Bool.or_eq_true, Bool.and_eq_true, decide_eq_true_eq, beq_iff_eq] at h
+  omega
+
+/-- A body does not begin with a special character. -/
+theorem body_head (B : Str) (hB : bodyStr false B = true) : ∀ c t, B = c :: t → c ≠ 42 ∧ c ≠ 63 := by
+  intro c t heq
+  subst heq
+  simp only [bodyStr, Bool.false_eq_true, if_false] at hB
+  by_cases hc : c = 92
+  · subst hc; decide
+  · simp only [hc, if_false, Bool.and_eq_true] at hB
+    have := unreserved_not_special c hB.1
+    exact ⟨this.1, this.2.1⟩
+
+/-- The tokens of a body are the literals it stands for. -/
+theorem tokens_body (e : Bool) (b : Str) (hb : bodyStr e b = true) :
+    tokensAux e b = (unquoteAux e b).map .lit := by
+  induction b generalizing e with
+  | nil => rfl
+  | cons c rest ih =>
+    simp only [bodyStr] at hb
+    by_cases he : e = true
+    · simp only [he, if_true] at hb
+      simp [tokensAux, unquoteAux, he, ih false hb]
+    · have he' : e = false := by simpa using he
+      subst he'
+      by_cases hc : c = 92
+      · simp only [hc, Bool.false_eq_true, if_false, if_true] at hb
+        simp [tokensAux, unquoteAux, hc, ih true hb]
+      · simp only [hc, Bool.false_eq_true, if_false, Bool.and_eq_true] at hb
+        have hs := unreserved_not_special c hb.1
+        simp [tokensAux, unquoteAux, hc, tokOf, hs.1, hs.2.1, ih false hb.2]
+
+theorem tokensAux_body_append (e : Bool) (b y : Str) (hb : bodyStr e b = true) :
+    tokensAux e (b ++ y) = tokensAux e b ++ tokensAux false y := by
+  induction b generalizing e with
+  | nil =>
+    have : e = false := by simpa [bodyStr] using hb
+    subst this; rfl
+  | cons c rest ih =>
+    simp only [bodyStr] at hb
+    by_cases he : e = true
+    · simp only [he, if_true] at hb
+      simp [tokensAux, he, ih false hb]
+    · have he' : e = false := by simpa using he
+      subst he'
+      by_cases hc : c = 92
+      · simp only [hc, Bool.false_eq_true, if_false, if_true] at hb
+        simp [tokensAux, hc, ih true hb]
+      · simp only [hc, Bool.false_eq_true, if_false, Bool.and_eq_true] at hb
+        simp [tokensAux, hc, ih false hb.2]
+
+theorem tokensAux_specials (x y : Str) (hx : ∀ c ∈ x, c = 42 ∨ c = 63) :
+    tokensAux false (x ++ y) = x.map tokOf ++ tokensAux false y := by
+  induction x with
+  | nil => rfl
+  | cons c rest ih =>
+    have hc : c ≠ 92 := by
+      rcases hx c (by simp) with h | h <;> omega
+    have hr : ∀ d ∈ rest, d = 42 ∨ d = 63 := fun d hd => hx d (by simp [hd])
+    simp [tokensAux, hc, ih hr]
+
+theorem leadStr_specials (w : Option Nat) : ∀ c ∈ leadStr w, c = 42 ∨ c = 63 := by
+  cases w with
+  | none => intro c hc; simp [leadStr] at hc; exact Or.inl hc
+  | some n => intro c hc; simp [leadStr] at hc; exact Or.inr hc.2
+
+theorem tokens_leadStr_append (w : Option Nat) (y : Str) :
+    tokensAux false (leadStr w ++ y) = leadToks w ++ tokensAux false y := by
+  rw [tokensAux_specials _ _ (leadStr_specials w), map_tokOf_leadStr]
+
+theorem tokens_leadStr (w : Option Nat) : tokensAux false (leadStr w) = leadToks w := by
+  have := tokens_leadStr_append w []
+  simpa [tokensAux] using this
+
+/-! ### the trailing step -/
+
+theorem splitTail_specials (tl : Str) (h : ∀ c ∈ tl, c = 42 ∨ c = 63) : splitTail false tl = ([], tl) := by
+  induction tl with
+  | nil => rfl
+  | cons c rest ih =>
+    have hr : ∀ d ∈ rest, d = 42 ∨ d = 63 := fun d hd => h d (by simp [hd])
+    have hc := h c (by simp)
+    have h92 : (c == 92) = false := by rcases hc with h | h <;> subst h <;> rfl
+    have hsp : (c == 42 || c == 63) = true := by rcases hc with h | h <;> subst h <;> rfl
+    simp only [splitTail, h92, Bool.not_false, Bool.and_false, ih hr, hsp, Bool.true_and, List.isEmpty_nil,
+      if_true]
+
+/-- `wildTail` cuts a body followed by unquoted special characters after the body. -/
+theorem splitTail_body (e : Bool) (b tl : Str) (hb : bodyStr e b = true) (h : ∀ c ∈ tl, c = 42 ∨ c = 63) :
+    splitTail e (b ++ tl) = (b, tl) := by
+  induction b generalizing e with
+  | nil =>
+    have : e = false := by simpa [bodyStr] using hb
+    subst this
+    exact splitTail_specials tl h
+  | cons c rest ih =>
+    simp only [bodyStr] at hb
+    by_cases he : e = true
+    · simp only [he, if_true] at hb
+      subst he
+      simp [splitTail, ih false hb]
+    · have he' : e = false := by simpa using he
+      subst he'
+      by_cases hc : c = 92
+      · simp only [hc, Bool.false_eq_true, if_false, if_true] at hb
+        subst hc
+        simp [splitTail, ih true hb]
+      · simp only [hc, Bool.false_eq_true, if_false, Bool.and_eq_true] at hb
+        have hs := unreserved_not_special c hb.1
+        have h92 : (c == 92) = false := by simp [hc]
+        have h42 : (c == 42) = false := by simp [hs.1]
+        have h63 : (c == 63) = false := by simp [hs.2.1]
+        simp [splitTail, h92, h42, h63, ih false hb.2]
+
+theorem dropWhile_replicate_q (n : Nat) : (List.replicate n 63).dropWhile (· == 63) = [] := by
+  induction n with
+  | zero => rfl
+  | succ n ih => simp [List.replicate_succ, ih]
+
+theorem stripLead_replicate (n : Nat) : stripLead (List.replicate n 63) = (some n, []) := by
+  cases n with
+  | zero => exact stripLead_nil
+  | succ n =>
+    rw [List.replicate_succ, stripLead_cons_ne 63 _ (by decide)]
+    have := dropWhile_replicate_q (n + 1)
+    rw [List.replicate_succ] at this
+    rw [this]
+    simp
+
+theorem stripTrail_leadStr (r : Option Nat) : stripTrail (leadStr r) = (r, []) := by
+  cases r with
+  | none => rfl
+  | some n =>
+    simp only [stripTrail, leadStr, List.reverse_replicate, stripLead_replicate, List.reverse_nil]
+
+theorem stripTrailQ_body (b : Str) (r : Option Nat) (hb : bodyStr false b = true) :
+    stripTrailQ (b ++ leadStr r) = (r, b) := by
+  simp only [stripTrailQ, splitTail_body false b (leadStr r) hb (leadStr_specials r), stripTrail_leadStr,
+    List.append_nil]
+
+/-! ### the theorem -/
+
+/-- `patCompare` is the specification's glob matching for every source value
+    that `validate` accepts and every target. -/
+theorem patCompare_eq_spec (s t : Str) (hv : validate s = true) :
+    patCompare s t = CpeSpec.globMatches s t := by
   obtain ⟨_, _, _, l, body, r, hs, hb⟩ := validate_grammar s hv
-  have hbody : 92 ∉ body := by
-    intro h; apply h92; rw [hs]; simp [h]
-  have hun := body_noquote_clean body hbody hb
-  have hB : cleanL (lower body) := by
-    intro c hc
-    simp only [lower, List.mem_map] at hc
-    obtain ⟨d, hd, rfl⟩ := hc
-    have hu := hun d hd
-    rw [unreserved_iff] at hu
-    have hres : reserved d = false := by simpa using hu
-    constructor
-    · intro h
-      have := (lowerC_eq_iff d 42 (by omega)).1 h
-      subst this; simp [reserved] at hres
-    · intro h
-      have := (lowerC_eq_iff d 63 (by omega)).1 h
-      subst this; simp [reserved] at hres
+  have hB : bodyStr false (lower body) = true := by rw [bodyStr_lower]; exact hb
   have hl : lower s = leadStr l ++ lower body ++ leadStr r := by
     rw [hs]
     simp only [lower, List.map_append]
@@ -173,8 +296,26 @@ theorem validate_coreClean (s : Str) (hv : validate s = true) (h92 : 92 ∉ s) :
     have h2 := lower_leadStr r
     simp only [lower] at h1 h2
     rw [h1, h2]
-  unfold coreClean
-  rw [hl]
-  exact core_clean_of_shape l r (lower body) hB
+  -- what the leading step leaves is again a body followed by a trailing wildcard
+  have hrem : ∃ B' r', (stripLead (lower s)).2 = B' ++ leadStr r' ∧ bodyStr false B' = true := by
+    rw [hl]
+    rcases stripLead_rem l r (lower body) (body_head _ hB) with h | ⟨_, _, h⟩ | ⟨_, h⟩
+    · exact ⟨lower body, r, h, hB⟩
+    · exact ⟨[], none, by rw [h]; rfl, rfl⟩
+    · exact ⟨[], some 0, by rw [h]; rfl, rfl⟩
+  obtain ⟨B', r', hrem, hB'⟩ := hrem
+  have e1 := stripLead_eq (lower s)
+  have htoks : tokens (lower s) =
+      leadToks (stripLead (lower s)).1 ++ ((unquote B').map .lit ++ leadToks r') := by
+    rw [tokens]
+    conv => lhs; rw [e1, hrem]
+    rw [tokens_leadStr_append, tokensAux_body_append false B' _ hB', tokens_body false B' hB', tokens_leadStr]
+    rfl
+  apply Bool.eq_iff_iff.2
+  unfold patCompare CpeSpec.globMatches
+  simp only [hrem, stripTrailQ_body B' r' hB']
+  rw [← lower_eq_map, htoks, glob_pattern, patLoop_iff]
+  simp only [unquote, CpeSpec.unquote, unquoteAux_eq_spec]
+  simp
 
 end ClairModel.Cpe
